@@ -98,6 +98,13 @@ def build_harness(debug=False):
     rc, out = sh(cmd, cwd=os.path.join(ROOT, "harness"), timeout=1200)
     return rc == 0, out
 
+HARNESS_STD = os.path.join(ROOT, "harness", "target-std", "release", "coset-verif-harness")
+def build_harness_std():
+    """the same harness with coset's `std` cargo feature on (C01 quantifies over both configurations)"""
+    env = dict(ENV, CARGO_TARGET_DIR=os.path.join(ROOT, "harness", "target-std"))
+    rc, out = sh(["cargo", "build", "--offline", "--release", "--features", "coset/std"], cwd=os.path.join(ROOT, "harness"), timeout=1200, env=env)
+    return rc == 0, out
+
 def _run_shard(binary, lines, env, per_case_timeout):
     """feed lines; if the process dies, record `crash` for the case it died on and restart"""
     out = []
@@ -139,9 +146,9 @@ def run_cases(binary, lines, env=None, per_case_timeout=0.05, shards=None):
     for r in res: out.extend(r)
     return out
 
-def run_impl(lines, threaded=False, debug=False, **kw):
+def run_impl(lines, threaded=False, debug=False, std=False, **kw):
     env = {"HARNESS_THREAD": "1"} if threaded else {}
-    return run_cases(HARNESS_DEBUG if debug else HARNESS, lines, env=env, **kw)
+    return run_cases(HARNESS_STD if std else HARNESS_DEBUG if debug else HARNESS, lines, env=env, **kw)
 
 def run_model(lines, reference=False, **kw):
     return run_cases(REFDRIVER if reference else DRIVER, lines, per_case_timeout=0.5, **kw)
